@@ -49,6 +49,12 @@ def renderer_class(name):
             'PygmentsRenderer': PygmentsRenderer}[name]
 
 
+def private_lists(module):
+    """the module-level private lists of a library module (core_tokens keeps the code-span matches handed from the core scanner
+    to InlineCode.find in one): found by introspection, not by name, so that a rename of a private global is not an alarm"""
+    return [v for n, v in sorted(vars(module).items()) if n.startswith('_') and not n.startswith('__') and isinstance(v, list)]
+
+
 def reset_library():
     """Bring the process-global parser state back to what a fresh interpreter has (used between
     cases so that one case's exception cannot disturb the next; C11 is about that state itself)."""
@@ -56,7 +62,8 @@ def reset_library():
     from mistletoe import block_token, span_token, core_tokens, token, span_tokenizer
     block_token.reset_tokens()
     span_token.reset_tokens()
-    core_tokens._code_matches = []
+    for lst in private_lists(core_tokens):
+        del lst[:]
     block_token.Paragraph.parse_setext = True
     token._root_node = None
     html._charref = span_tokenizer._stdlib_charref
